@@ -318,6 +318,8 @@ impl Position {
                         "height",
                     ]);
                 }
+                // drawn from `d` / `points`: moved by a transform, with or without a known box
+                "path" | "polyline" | "polygon" => self.position_via_transform(element),
                 _ => (),
             }
         } else if matches!(element.name.as_str(), "g" | "path" | "polyline" | "polygon") {
